@@ -98,6 +98,24 @@ DESC = {
     "C14-5": ("exposed helper decorated with lru_cache", "exposed layout and an unhashable condition-field value (list, dict, set)"),
     "C14-6": ("`not a != b` folded in place on the AST + per-text AST cache in generate_code", "generate_code called twice for a text with `not` directly on != / not in"),
     "C17-5": ("sly: one pre-created YaccProduction per grammar production (class-level)", "two threads reducing the same production at once with different values"),
+    "C01-5": ("repeated groups of a return merged by iterating a set of labels", "a return naming the same string group twice, evaluated in processes with different PYTHONHASHSEED"),
+    "C01-6": ("'standby' slot for rollbacks; _checksum only assigned in the compile branch", "A -> B -> A -> B on one instance: the last recompile(B) is skipped"),
+    "C03-5": ("integer scaling of the hash position when total >= 2^21", "decimal weights whose sum is at least 2 097 152"),
+    "C03-6": ("linear scan with `target <= cum[i]` for <= 8 groups", "hash position 0 exactly and leading zero-weight groups"),
+    "C04-5": ("salt moved into a module constant in a namespace shared by all evaluators", "two evaluators alive in one process, the first called after the second was compiled"),
+    "C04-6": ("multi-field keys hashed per field and XOR-folded", "a unit whose two splitter fields carry the same value"),
+    "C09-5": ("field lists sorted with key=str.lower", "two splitter names differing only in letter case, declared in another order"),
+    "C09-6": ("'wide record' fast path: run_experiment(*map(kwargs.get, fields))", "a call that omits a declared field and carries more extra kwargs than fields are missing"),
+    "C10-5": ("alias-method tables for return statements with >= 8 groups", "a ramp of a return statement with 8 or more groups"),
+    "C10-6": ("cum_weights precomputed at code generation, rounded to 6 decimals", "weights around 1e-6 or smaller"),
+    "C12-5": ("natural (numeric-aware) ordering of field names", "splitters like seg2 / seg10 where numeric and lexicographic order disagree"),
+    "C12-6": ("latin-1 fast path when encoding the hash key", "a key that is non-ASCII but entirely within U+0000..U+00FF"),
+    "C15-5": ("key assembly moved into binning; single-part keys passed raw", "no salt, exactly one splitter, value None"),
+    "C15-6": ("fields compared with numbers are converted with as_number() at function entry", "a splitter that is also compared with a float literal, called with an integer-looking string"),
+    "C16-5": ("small-population scan with None as 'not found' sentinel", "a population of <= 8 items containing None (not last) whose interval is hit"),
+    "C16-6": ("cum_weights of length n+1 with a leading 0 accepted", "a too-long cum_weights list whose first total is 0"),
+    "C18-5": ("Wald branch only when p(1-p) > 0, else falls through to Agresti-Coull", "method wald with p exactly 0 or 1"),
+    "C18-6": ("asymptotic normal-tail expansion for the z-score below 1e-4", "alpha < 1e-4 (confidence > 0.9998)"),
     "C17-6": ("codegen temporarily raises sys.setrecursionlimit and restores the saved value", "two threads overlapping in codegen on a > 1000-rung else-if ladder, in a particular exit order"),
 }
 
@@ -119,7 +137,7 @@ def main():
             written_by="independent sub-agent given only the property text and a scratch git worktree of /repo (nothing from /verif)"
                        + ("; round 2: additionally told which round-1 ideas not to repeat" if int(name.split("-")[1]) in (3, 4) else "")
                        + ("; round 3: told the ideas of rounds 1-2 and asked to work in the vendored sly library / the pydantic AST / files "
-                          "earlier rounds left alone" if int(name.split("-")[1]) >= 5 else ""),
+                          "earlier rounds left alone (C02, C05-C08, C11, C13, C14, C17) or given a per-property focus area (the other nine)" if int(name.split("-")[1]) >= 5 else ""),
             confirmed=dict(
                 patch_applies=run.get("patch_applies"),
                 baseline_tests_pass_with_change=run.get("tests_pass_with_change"),
